@@ -5,7 +5,7 @@ From PG Require Import Common.Tactics Model.Geno Model.Evo Model.EvoOps Proofs.G
 Fixpoint sel_only (x : opx) : bool :=
   match x with
   | Prim (PSel _) | Ident => true
-  | Prim _ | Each _ | Flatten _ => false
+  | Prim _ | Each _ | Flatten _ | GGet _ _ | GSet _ _ => false
   | Pipe a b | Union_ a b | Inter a b | Concat a b | Diff a b | SymDiff a b | IfLen _ a b => sel_only a && sel_only b
   | Choice2 a _ b _ _ => sel_only a && sel_only b
   | Repeat _ a | Power _ a | SliceI _ a | SliceS _ _ _ a | Invert a | WithProb _ a | Until _ a | Plain a => sel_only a
@@ -29,7 +29,7 @@ Section SelExpr.
   Proof.
     induction x; simpl; intros Hs pop st out st' Hf H; try discriminate;
       try (apply andb_true_iff in Hs as [Hs1 Hs2]).
-    - destruct p; try discriminate. simpl in H. ok_step H. inv H. eapply select_members; eauto.
+    - destruct p; try discriminate. simpl in H. ok_step H. ok_step E. inv E. inv H. eapply select_members; eauto.
     - inv H. apply incl_refl.
     - ok_step H. pose proof (IHx1 Hs1 _ _ _ _ Hf E) as H1.
       eapply incl_tran; [|exact H1]. eapply IHx2; eauto. eapply flat_incl; eauto.
@@ -39,11 +39,11 @@ Section SelExpr.
     - ok_step H. ok_step H. inv H. eapply incl_tran. apply incl_filter. eauto.
     - ok_step H. ok_step H. inv H. eapply incl_tran. apply incl_filter. apply incl_app; eauto.
     - (* Repeat *)
-      apply (iter_res_inv _ (fun acc : list item * est R => incl (fst acc) pop)) in H; auto.
+      apply (iter_res_inv _ (fun acc : list item * gst R => incl (fst acc) pop)) in H; auto.
       + intros [acc st0] y Ha Hy. simpl in *. ok_step Hy. inv Hy. simpl. apply incl_app; auto. eapply (IHx Hs pop); eauto.
       + intros y [].
     - (* Power *)
-      apply (iter_res_inv _ (fun acc : list item * est R => incl (fst acc) pop)) in H; auto.
+      apply (iter_res_inv _ (fun acc : list item * gst R => incl (fst acc) pop)) in H; auto.
       + intros [acc st0] [y st1] Ha Hy. simpl in *. eapply incl_tran; [|exact Ha]. eapply (IHx Hs acc); eauto. eapply flat_incl; eauto.
       + apply incl_refl.
     - (* SliceI *)
@@ -51,24 +51,24 @@ Section SelExpr.
       pose proof (IHx Hs _ _ _ _ Hf E) as Hl.
       destruct (nth_error l n) as [y|] eqn:En; [|discriminate].
       assert (Hy : In y pop) by (apply Hl; eapply nth_error_In; eauto).
-      destruct y as [i0|g gl].
+      destruct y as [i0|gid gl].
       + inv H. intros z [<-|[]]. auto.
       + unfold flat in Hf. rewrite Forall_forall in Hf. apply Hf in Hy. discriminate.
     - ok_step H. inv H. eapply incl_tran. apply py_slice_incl. eauto.
     - ok_step H. inv H. apply incl_filter.
-    - destruct (real G (fst st)) as [z r1]. destruct (lt_prob z p). eapply IHx; eauto. inv H. apply incl_refl.
-    - destruct (real G (fst st)) as [z r1].
+    - match type of H with context [real G ?t] => destruct (real G t) as [z r1] end. destruct (lt_prob z p). eapply IHx; eauto. inv H. apply incl_refl.
+    - match type of H with context [real G ?t] => destruct (real G t) as [z r1] end.
       match type of H with rbind ?e _ = _ => destruct e as [[[pop1 st1] n1]|] eqn:E1; simpl in H; [|discriminate] end.
       assert (H1 : incl pop1 pop).
       { destruct (lt_prob z p). ok_step E1. inv E1. eapply IHx1; eauto. inv E1. apply incl_refl. }
       destruct (match limit with Some l => (n1 =? 1) && (l =? 1) | None => false end). inv H; auto.
-      destruct (real G (fst st1)) as [z2 r2]. destruct (lt_prob z2 q).
+      match type of H with context [real G ?t] => destruct (real G t) as [z2 r2] end. destruct (lt_prob z2 q).
       eapply incl_tran; [|exact H1]. eapply IHx2; eauto. eapply flat_incl; eauto. inv H; auto.
     - destruct (thr <? length pop); [eapply IHx1|eapply IHx2]; eauto.
     - (* Until *)
       revert st H. induction maxa as [|k IHk]; intros st H. discriminate.
       ok_step H. destruct (negb (pop_eqb l pop)). inv H. eapply IHx; eauto.
       destruct k. inv H. eapply IHx; eauto. eapply IHk; eauto.
-    - eapply IHx; eauto.
+    - ok_step H. inv H. eapply IHx; eauto.
   Qed.
 End SelExpr.
